@@ -1036,10 +1036,18 @@ evhttp_handle_chunked_read(struct evhttp_request *req, struct evbuffer *buf)
 			if (p == NULL)
 				break;
 			len_p = strlen(p);
-			/* the last chunk is on a new line? */
-			if (len_p == 0) {
+			/* chunk = chunk-size CRLF chunk-data CRLF (RFC 9112 7.1):
+			 * ntoread == -2 means that the data of a chunk has been
+			 * read and its CRLF is due; an empty line is valid there
+			 * and only there. */
+			if (req->ntoread == -2 && len_p == 0) {
 				mm_free(p);
+				req->ntoread = -1;
 				continue;
+			}
+			if (req->ntoread == -2 || len_p == 0) {
+				mm_free(p);
+				return (DATA_CORRUPTED);
 			}
 			/* strtoll(,,16) lets through whitespace, 0x, +, and - prefixes, but HTTP doesn't. */
 			error = isspace(p[0]) ||
@@ -1098,7 +1106,7 @@ evhttp_handle_chunked_read(struct evhttp_request *req, struct evbuffer *buf)
 
 		/* Completed chunk */
 		evbuffer_remove_buffer(buf, req->input_buffer, (size_t)req->ntoread);
-		req->ntoread = -1;
+		req->ntoread = -2; /* the CRLF that ends the chunk is due */
 		if (req->chunk_cb != NULL) {
 			req->flags |= EVHTTP_REQ_DEFER_FREE;
 			(*req->chunk_cb)(req, req->cb_arg);
